@@ -258,6 +258,8 @@ Solution(T, s, sol, stats, kind) ==
         <<"C01:sat-all",         SatAll(P, asg)>>,
         <<"C02:fresh",           kind # "Y" \/ asg \notin s.yielded>>,
         <<"C03:improves",        kind # "I" \/ ~s.hasInc \/ Better(T, obj, Objective(P, T, s.inc))>>,
+        \* the restart loop terminates because every incumbent is strictly better than the previous one
+        <<"C04:restart-without-progress", kind # "I" \/ ~s.hasInc \/ Better(T, obj, Objective(P, T, s.inc))>>,
         <<"C17:stats-exact",     stats = cnt1>> >>)
   IN << [s EXCEPT !.yielded = @ \cup {asg}, !.cnt = cnt1, !.hasInc = (kind = "I"), !.inc = IF kind = "I" THEN asg ELSE @], bad >>
 
